@@ -26,6 +26,23 @@ def run(chk):
         rc, out = lib.sh([bins["c04_layout"]])
         chk.oblige("layout: sizeof/offsetof/standard_layout for every (type, element type)", "static-assert", rc == 0, out[-300:])
         chk.extra["layout_asserts"] = out.strip().split("\n")[-1]
+    # build-configuration dimension: the C++23-only `if consteval` bodies of Vec2/3/4::operator[] const
+    ok, cebin, celog = lib.cxx_build("c04_consteval", ["corr/c04_consteval.cpp"],
+                                     lang_flags=["-std=c++23", "-O1", "-I" + os.path.join(lib.REPO, "src", "Imath"), "-I" + lib.imath_config_dir()])
+    chk.oblige("build:c04_consteval (-std=c++23)", "build", ok, None if ok else celog[-800:])
+    if not ok:
+        chk.fail("build:c04_consteval (-std=c++23)", "build:c04_consteval", "the headers no longer compile as C++23 (or the harness is stale)",
+                 {"compiler_errors": [l for l in celog.split("\n") if "error" in l][:10]}, False)
+    else:
+        rc, out = lib.sh([cebin])
+        bad = [l for l in out.split("\n") if l.startswith("CONSTEVAL-FAIL")]
+        name = "consteval: v[i] in constant evaluation = run-time v[i] = i-th named member (Vec2/3/4 x 6 element types, C++23)"
+        chk.oblige(name, "correspondence", rc == 0 and not bad, out[-300:])
+        chk.extra["consteval"] = out.strip().split("\n")[-1]
+        if bad or rc != 0:
+            chk.fail(name, "consteval:" + (bad[0].split(" index ")[0].replace("CONSTEVAL-FAIL ", "") if bad else "harness"),
+                     "operator[] const evaluated in a constant expression (C++23 `if consteval` body) does not return the i-th member",
+                     {"mismatches": bad[:12], "replay_cmd": "g++ -std=c++23 -O1 -I<repo>/src/Imath -I<cfg> harness/corr/c04_consteval.cpp && ./a.out"}, bool(bad))
     if not bins.get("sym_c04"):
         return
     index, changed = troute.regenerate(chk, bins["sym_c04"], "c04")
